@@ -59,6 +59,8 @@ class _SupportsIndex(Protocol):
 
 
 Numeric = TypedValue(float) | TypedValue(_SupportsIndex)
+Integral = TypedValue(_SupportsIndex)
+_INTEGER_CONVERSION_TYPES = set("oxX")
 
 
 #
@@ -154,7 +156,14 @@ class ConversionSpecifier:
     def accept_no_mvv(self, arg: Value, ctx: CanAssignContext) -> Iterable[str]:
         if self.conversion_type in _NUMERIC_CONVERSION_TYPES:
             # to deal with some code that sets global state to None and changes it later
-            if not Numeric.is_assignable(arg, ctx):
+            if self.conversion_type in _INTEGER_CONVERSION_TYPES:
+                # %o, %x and %X raise TypeError for floats
+                if not Integral.is_assignable(arg, ctx):
+                    yield (
+                        f"%{self.conversion_type} conversion specifier accepts"
+                        f" integers, not {arg}"
+                    )
+            elif not Numeric.is_assignable(arg, ctx):
                 yield (
                     f"%{self.conversion_type} conversion specifier accepts numbers, not"
                     f" {arg}"
